@@ -1,7 +1,3 @@
-//@ include prelude/head.rs
-//@ include prelude/error_types.rs
-use std::fmt::{Formatter, Result as FmtResult};
-//@ include prelude/status.rs
-//@ include spec/errors.rs
+//@ include prelude/common.rs
 //@ include contracts/errors.rs
 //@ include prelude/tail.rs
